@@ -260,7 +260,8 @@ def check(spec, ctx):
             bs.ignore = []
             bs.box = BOX
             bs.box_grid = np.array([[15.0, 15.0, 15.0], [10.0, 20.0, 12.0], [22.0, 8.0, 18.0], [8.0, 9.0, 25.0]])
-            bs.maxiter = spec["maxiter_mol"] + 40
+            # a small number of allowed attempts: molecules also run out of attempts and are started over
+            bs.maxiter = spec["maxiter_mol"]
             bs.start_dict = {i: None for i in range(len(mols))}
             bs.nonbond_matrix = engine
             bs.rwargs = {"step_fudge": 1.0, "max_force": 1e9, "nrewind": spec["nrewind"]}
